@@ -117,6 +117,10 @@ const READ_FAULTS: &[(&str, &str)] = &[("read-unbalanced", "(list 1 (+ 2 3)"), (
 /// descriptions in the trace must be those of a fresh VM even when the collector runs while the failure is handled.
 const ANON: &str = "(let ((p 5) (q 6)) (+ 1 ((lambda (z) (+ 2 (pf 2))) p)))";
 
+/// Evaluated after the repeated failures of a resource case (one text, one datum).
+const LATER_PROBE: &str = "(let loop ((i 0) (acc '())) (cond ((< i 3) (loop (+ i 1) (let* ((a i) (b (when #t a))) (case b ((1) (cons 'one acc)) (else (or #f (and #t (cons (eval (list 'let (list (list 'q b)) 'q)) acc)))))))) (else (list (length acc) acc))))";
+const LATER_PROBE_VALUE: &str = "(3 (2 one 0))";
+
 const PF: &str = "(define (pf n) (if (= n 0) (car '()) (+ 1 (pf (- n 1)))))";
 
 fn items(c: &Cell) -> Option<Vec<Cell>> {
@@ -504,7 +508,7 @@ fn run_case(st: &mut St, acc: &mut Acc, case: &Case) {
 
 /// Resource oracle: after k consecutive failures, sp, stack capacity and live heap are those after few.
 fn resources(acc: &mut Acc, case: &Case, k_small: u32, k_large: u32) {
-    let measure = |k: u32| -> Option<(usize, usize, usize, usize)> {
+    let measure = |k: u32| -> Option<(usize, usize, usize, usize, String)> {
         let mut c = case.clone();
         c.repeat = k;
         let (texts, _, _) = build_session(&c, 1);
@@ -516,6 +520,9 @@ fn resources(acc: &mut Acc, case: &Case, k_small: u32, k_large: u32) {
                 return None;
             }
         }
+        // a later evaluation that goes through every layer (nested derived forms, a macro definition and its use, eval):
+        // its outcome after many failures must be its outcome after few
+        let probe = im.eval_text(LATER_PROBE).show();
         // drop the data the completed effects accumulated (re-run the setup), then collect
         for f in parse_forms(PROGRAMS[case.program].1).unwrap() {
             let _ = im.eval(&f);
@@ -524,7 +531,7 @@ fn resources(acc: &mut Acc, case: &Case, k_small: u32, k_large: u32) {
         let capacity = im.vm.verif_heap().capacity();
         im.vm.verif_collect_now();
         let heap = im.vm.verif_heap();
-        Some((im.vm.verif_stack().get_sp(), im.vm.verif_stack().len(), heap.capacity() - heap.verif_free_list().len(), capacity))
+        Some((im.vm.verif_stack().get_sp(), im.vm.verif_stack().len(), heap.capacity() - heap.verif_free_list().len(), capacity, probe))
     };
     acc.evals += 2;
     let (a, b) = (measure(k_small), measure(k_large));
@@ -535,6 +542,15 @@ fn resources(acc: &mut Acc, case: &Case, k_small: u32, k_large: u32) {
     if let (Some(a), Some(b)) = (a, b) {
         acc.nontrivial += 1;
         // live heap may differ by the few cells of interned literals; capacity and sp must be equal
+        if a.4 != b.4 || a.4 != LATER_PROBE_VALUE {
+            acc.violation(Violation {
+                key: format!("later-probe|{}|{}|{:?}", PROGRAMS[case.program].0, fault_name, case.path),
+                class: Some(format!("{}/{}/later-evaluation-differs", PROGRAMS[case.program].0, fault_name)),
+                observed: "later-evaluation-differs-after-many-failures".into(),
+                detail: json!({"session": [build_session(case, 1).0.join("\n"), LATER_PROBE], "note": format!("the faulted form repeated {} vs {} times, then the probe", k_small, k_large),
+                    "probe_after_few": a.4, "probe_after_many": b.4, "expected": LATER_PROBE_VALUE}),
+            });
+        }
         if a.0 != b.0 || a.1 != b.1 || b.2 > a.2 + 64 || b.3 != a.3 {
             acc.violation(Violation {
                 key: format!("resources|{}|{}|{:?}", PROGRAMS[case.program].0, fault_name, case.path),
@@ -631,7 +647,7 @@ pub fn run(ctx: &Ctx) -> i32 {
         Acc::merge,
         acc_zero,
     );
-    let (k_small, k_large) = ctx.tier.pick((5u32, 60u32), (10u32, 1000u32));
+    let (k_small, k_large) = ctx.tier.pick((10u32, 1000u32), (10u32, 1000u32));
     let a2 = par_fold(
         res_cases.len() as u64,
         1,
